@@ -545,7 +545,7 @@ def f4_probe(ctx):
 
 def replay(ctx, path):
     import replaylib
-    r = replaylib.load("C10", path)
+    r = replaylib.load(ctx, path)
     if "op" not in r and "f4_op" not in r:
         return replaylib.obligations("C10", run, r, path)
     vlib.c_build("asan", targets=["liblzma"])
